@@ -25,82 +25,181 @@ WRITE_ALL = "std::io::Write::write_all"
 FLUSH = "std::io::Write::flush"
 
 
+def _mode_switches(facts, body, variants):
+    out = []
+    for s in sorted(body.reachable(0)):
+        t = body.term(s)
+        if t["k"] != "switch":
+            continue
+        e = switch_discr_expr(body, s)
+        if e.k != "discr":
+            continue
+        x = e.a
+        while x is not None and x.k in ("ref", "deref"):
+            x = x.a
+        ty = None
+        if x is not None and x.k == "param":
+            ty = body.locals[x.idx]["ty"]
+        elif x is not None and x.k in ("local", "multi"):
+            ty = body.locals[x.local]["ty"]
+        if ty is None or ty.lstrip("&").replace("mut ", "") != MODE_ADT:
+            continue
+        out.append(s)
+    return out
+
+
+def mode_table(facts, body, variants):
+    """{variant: ('flags', frozenset) | ('silent', why)} for a function that matches on a Mode value and opens a file.
+    Per variant the function is restricted to the sub-CFG in which the Mode switch takes only that variant's edge; every
+    OpenOptions setter / File::create shortcut that can reach an open in that sub-CFG is interpreted over the finite flag set.
+    A setter that is not on every path to the open (conditional flag) makes the arm 'silent'."""
+    sws = _mode_switches(facts, body, variants)
+    if not sws:
+        return None
+    s = sws[0]
+    table = {}
+    all_targets = {}
+    for v in variants:
+        tg = variant_target(body, s, variants.index(v), len(variants))
+        if tg is not None:
+            all_targets[v] = tg
+    for v, tg in all_targets.items():
+        cut = {(s, b) for b in body.succ[s] if b != tg}
+        # when several variants share the target (otherwise edge) they are not separated: leave those silent
+        if sum(1 for t2 in all_targets.values() if t2 == tg) > 1:
+            table[v] = ("silent", "arm shared with another variant")
+            continue
+        sub = reachable_without_edges(body, 0, cut)
+        opens = []
+        setters = []
+        for bb in sorted(sub):
+            tt = body.term(bb)
+            if tt["k"] != "call":
+                continue
+            q = tt["f"].get("q") or ""
+            if q in ("std::fs::File::create", "std::fs::File::create_new", "std::fs::File::open"):
+                opens.append(bb)
+                setters.append((bb, None, SHORTCUTS[q]))
+            elif q in SHORTCUTS:
+                pass
+            elif q.startswith(OO) and q[len(OO):] in SETTERS and len(tt["args"]) >= 2:
+                val = peel(body.operand_expr(tt["args"][1]))
+                name = q[len(OO):]
+                setters.append((bb, name, True if (val.k == "const" and val.v is True) else False if (val.k == "const" and val.v is False) else None))
+            elif q == OO + "open":
+                opens.append(bb)
+        if not opens:
+            table[v] = ("silent", "no open on this variant's paths")
+            continue
+        flags = set()
+        why = None
+
+        def on_all_paths(bb):
+            # every path (in the sub-CFG) from entry to each open passes bb, or bb is after the switch arm exclusive region
+            for o in opens:
+                if o == bb:
+                    continue
+                if bb not in body.reachable(0):
+                    return False
+                r = body.reachable(0, avoid={bb}, edge_filter=lambda a, b: (a, b) not in cut)
+                if o in r and bb != 0:
+                    # o reachable without bb: fine only if bb cannot reach o at all (belongs to another open)
+                    if o in body.reachable(bb, edge_filter=lambda a, b: (a, b) not in cut):
+                        return False
+            return True
+        seen_names = {}
+        for bb, name, val in setters:
+            if name is None:
+                if len(opens) > 1 and not all(o == bb or bb not in sub for o in opens):
+                    pass
+                flags |= val
+                continue
+            if val is None:
+                why = "non-constant flag %s" % name
+                break
+            if not on_all_paths(bb):
+                why = "flag %s set on some paths only" % name
+                break
+            if name in seen_names and seen_names[name] != val:
+                why = "flag %s set to both true and false" % name
+                break
+            seen_names[name] = val
+        if why:
+            table[v] = ("silent", why)
+            continue
+        for name, val in seen_names.items():
+            if val:
+                flags.add(name)
+            else:
+                flags.discard(name)
+        table[v] = ("flags", frozenset(flags), s)
+    return table
+
+
 def rule_r1(facts, col):
     variants = enum_variants(facts, MODE_ADT)
     if not variants:
         return
-    seen_tables = {}
+    tables = {}
     for body in facts.bodies:
-        for s in sorted(body.reachable(0)):
-            t = body.term(s)
-            if t["k"] != "switch":
+        if body.kind == "closure":
+            continue
+        t = mode_table(facts, body, variants)
+        if t:
+            tables[body.q] = (body, t)
+    seen_tables = {}
+
+    def judge(v, flags):
+        req = REQUIRED.get(v)
+        missing = req["must"] - flags
+        forbidden = req["mustnot"] & flags
+        if missing or forbidden:
+            return "Mode::%s is documented as '%s' but opens with flags {%s}: %s%s" % (
+                v, req["doc"], ",".join(sorted(flags)),
+                ("missing " + ",".join(sorted(missing))) if missing else "",
+                (" forbidden " + ",".join(sorted(forbidden))) if forbidden else "")
+        return None
+
+    verdicts = {}
+    for q, (body, t) in tables.items():
+        for v, r in t.items():
+            key = "%s:%s" % (body.q, v)
+            if v not in REQUIRED:
                 continue
-            e = switch_discr_expr(body, s)
-            if e.k != "discr":
+            if r[0] == "silent":
+                col.silent("C17.R1", key, body.where(), r[1])
                 continue
-            x = e.a
-            while x is not None and x.k in ("ref", "deref"):
-                x = x.a
-            ty = None
-            if x is not None and x.k == "param":
-                ty = body.locals[x.idx]["ty"]
-            elif x is not None and x.k in ("local", "multi"):
-                ty = body.locals[x.local]["ty"]
-            if ty is None or ty.lstrip("&").replace("mut ", "") != MODE_ADT:
+            flags, s = r[1], r[2]
+            seen_tables.setdefault(v, {})[body.q] = flags
+            bad = judge(v, flags)
+            verdicts[(q, v)] = (bad, flags)
+            if bad:
+                col.bad("C17.R1", key, body.where(s), bad, {"flags": sorted(flags)})
+            else:
+                col.ok("C17.R1", key, body.where(s), "flags {%s}" % ",".join(sorted(flags)))
+    # constructors that take a Mode and delegate the open to a function with a table
+    cg = CallGraph(facts)
+    for body in facts.bodies:
+        if body.kind == "closure" or body.q in tables:
+            continue
+        if not any(l["ty"].lstrip("&").replace("mut ", "") == MODE_ADT for l in body.locals[1:1 + body.argc]):
+            continue
+        callee = None
+        for bb, t in body.calls():
+            for q in Body.callee_qs(t):
+                if q in tables:
+                    callee = q
+        if callee is None:
+            continue
+        for v in variants:
+            if (callee, v) not in verdicts:
                 continue
-            arms = discr_switch_arms(body, facts, s, variants)
-            regions = {}
-            for v in variants:
-                tg = variant_target(body, s, variants.index(v), len(variants))
-                if tg is not None:
-                    regions[v] = body.reachable(tg)
-            for v, reg in regions.items():
-                excl = set(reg)
-                for v2, reg2 in regions.items():
-                    if v2 != v:
-                        excl -= reg2
-                flags = set()
-                opens = 0
-                for bb in sorted(excl):
-                    tt = body.term(bb)
-                    if tt["k"] != "call":
-                        continue
-                    q = tt["f"].get("q") or ""
-                    if q in SHORTCUTS:
-                        flags |= SHORTCUTS[q]
-                        if q in ("std::fs::File::create", "std::fs::File::create_new", "std::fs::File::open"):
-                            opens += 1
-                    elif q.startswith(OO) and q[len(OO):] in SETTERS:
-                        val = peel(body.operand_expr(tt["args"][1]))
-                        name = q[len(OO):]
-                        if val.k == "const" and val.v is True:
-                            flags.add(name)
-                        elif val.k == "const" and val.v is False:
-                            flags.discard(name)
-                        else:
-                            flags.add("?" + name)
-                    elif q == OO + "open":
-                        opens += 1
-                key = "%s:%s" % (body.q, v)
-                req = REQUIRED.get(v)
-                if req is None or opens == 0:
-                    col.silent("C17.R1", key, body.where(s), "no requirement / no open in this arm")
-                    continue
-                if any(f.startswith("?") for f in flags):
-                    col.silent("C17.R1", key, body.where(s), "non-constant flag")
-                    continue
-                missing = req["must"] - flags
-                forbidden = req["mustnot"] & flags
-                seen_tables.setdefault(v, {})[body.q] = frozenset(flags)
-                if missing or forbidden:
-                    col.bad("C17.R1", key, body.where(s),
-                            "Mode::%s is documented as '%s' but opens with flags {%s}: %s%s" % (
-                                v, req["doc"], ",".join(sorted(flags)),
-                                ("missing " + ",".join(sorted(missing))) if missing else "",
-                                (" forbidden " + ",".join(sorted(forbidden))) if forbidden else ""),
-                            {"flags": sorted(flags)})
-                else:
-                    col.ok("C17.R1", key, body.where(s), "flags {%s}" % ",".join(sorted(flags)))
+            bad, flags = verdicts[(callee, v)]
+            key = "%s:%s" % (body.q, v)
+            if bad:
+                col.bad("C17.R1", key, body.where(), "opens through %s: %s" % (callee, bad), {"flags": sorted(flags)})
+            else:
+                col.ok("C17.R1", key, body.where(), "opens through %s with flags {%s}" % (callee, ",".join(sorted(flags))))
     # sibling agreement
     for v, per in seen_tables.items():
         if len(set(per.values())) > 1:
